@@ -273,6 +273,9 @@ def boundary_texts(tier):
         out.append(("module-lets-%d" % n, "".join("let m%d = %d;\n" % (i, i) for i in range(n)) + "print(m0);"))
         out.append(("methods-%d" % n, "class K {\n" + "".join("m%d() { %d }\n" % (i, i) for i in range(n)) + "}\nprint(K().m0());"))
         out.append(("catch-chain-%d" % n, "try { raise Error(\"x\"); }" + "".join(" catch e%d: TypeError {}" % i for i in range(min(n, 60))) + " catch e { print(\"ok\"); }"))
+    for n in (65534, 65535, 65536, 65537, 70000):
+        # the line table holds 16 bit line numbers
+        out.append(("lines-%d" % n, "\n" * (n - 1) + "print(1);\nprint(2);"))
     out.append(("lambda-continue", "for i in [1] { let f = || { continue; }; }"))
     out.append(("lambda-break", "while true { let f = || { break; }; break; }"))
     out.append(("nest-64", "print(" + "(" * 60 + "1" + ")" * 60 + ");"))
